@@ -37,3 +37,13 @@ def run(cx):
         r = [v for _, v in I.returns(fn, cx.F, True)]
         want = 'Point::Point{fp_mul($self.x, fp_sqr(fp_inv($self.z))), fp_mul($self.y, fp_mul(fp_sqr(fp_inv($self.z)), fp_inv($self.z))), SM2_MODP_MONT_ONE}'
         cx.add('I-AFFINE', fn.short, r == [want], 'affine conversion is (X/Z^2, Y/Z^3, 1): %s' % r, fn.loc())
+
+
+_run2 = run
+
+
+def run(cx):
+    from . import scalar_rules as SR
+    _run2(cx)
+    SR.sm2_scalar(cx)
+    SR.curve_predicates(cx)
